@@ -29,7 +29,7 @@ Proof. vm_compute. split; reflexivity. Qed.
 (* every key a manager uses lies inside the store, and the classes used by the observational equality are
    disjoint from the keys compared exactly *)
 Definition manager_keys : list tlkey :=
-  map fst flag_scopes ++ [k_permission; k_str_format; k_repr_format; k_view_options; k_context; k_contextual; k_detour; k_timing; k_dynamic_evaluate].
+  map fst flag_scopes ++ [k_permission; k_str_format; k_repr_format; k_view_options; k_context; k_contextual; k_detour; k_timing; k_dynamic_evaluate; k_dynstack].
 Lemma generated_keys_in_range : forallb (fun k => Nat.ltb k nkeys) manager_keys = true.
 Proof. vm_compute. reflexivity. Qed.
 Fixpoint nodup_nat (l : list nat) : bool :=
